@@ -2,6 +2,7 @@ package props
 
 import (
 	"fmt"
+	"sort"
 	"strings"
 	"time"
 
@@ -20,7 +21,7 @@ import (
 // (gate mode per rule).
 type SchedCase struct {
 	Rules   []models.Rule  `json:"rules"`
-	Builds  [][]int        `json:"builds"` // first group: full build; later groups: incremental builds; -(i+1) = an old version of rule i that a later group replaces
+	Builds  [][]int        `json:"builds"`            // first group: full build; later groups: incremental builds; -(i+1) = an old version of rule i that a later group replaces
 	OldSal  map[int]int64  `json:"old_sal,omitempty"` // salience of the old versions
 	Pool    bool           `json:"pool,omitempty"`
 	PoolMin int64          `json:"pool_min,omitempty"`
@@ -29,13 +30,43 @@ type SchedCase struct {
 	Call    gx.Call        `json:"call"`
 	Gates   map[string]int `json:"gates,omitempty"` // rule -> obs.Free / obs.Yield / obs.Hold
 	QuiesMs int            `json:"quies_ms,omitempty"`
+	// Prior, if set, is executed (ungated) on the same engine / pool before the call under
+	// test: what a call does must not depend on how the engine was used before.
+	Prior *gx.Call `json:"prior,omitempty"`
+}
+
+// genPrior draws, in a quarter of the cases, an earlier call of any execute method.
+func genPrior(t *rapid.T, c *SchedCase) {
+	if !pct(t, "prior", 25) {
+		return
+	}
+	ms := gx.MethodNames(c.Pool)
+	name := ms[uni(t, "prior_method", 0, len(ms)-1)]
+	idx := seqInts(len(c.Rules))
+	sort.SliceStable(idx, func(i, j int) bool { return c.Rules[idx[i]].Sal > c.Rules[idx[j]].Sal })
+	var names []string
+	for _, i := range idx {
+		names = append(names, c.Rules[i].Name)
+	}
+	if m, _ := gx.Lookup(name); m.NM && len(names) < 2 {
+		name = "Execute"
+	}
+	call := fullCall(name, names, uni(t, "prior_salt", 0, 5))
+	call.B = rapid.Bool().Draw(t, "prior_b")
+	c.Prior = &call
 }
 
 // ruleText renders the standard body.
 func ruleText(r models.Rule) string {
 	var b strings.Builder
-	fmt.Fprintf(&b, "rule %q %q salience %d\nbegin\n", r.Name, "d_"+r.Name, r.Sal)
-	b.WriteString("  S(@name)\n  gate(@name)\n")
+	fmt.Fprintf(&b, "rule %q", r.Name)
+	if !r.NoDesc {
+		fmt.Fprintf(&b, " %q", "d_"+r.Name)
+	}
+	if !r.NoSal {
+		fmt.Fprintf(&b, " salience %d", r.Sal)
+	}
+	b.WriteString("\nbegin\n  S(@name)\n  gate(@name)\n")
 	switch {
 	case strings.HasPrefix(r.TagCond, "="):
 		b.WriteString("  stag.StopTag = " + r.TagCond[1:] + "\n")
@@ -187,10 +218,10 @@ func newSchedEnv() *schedEnv {
 
 func (e *schedEnv) apis() map[string]interface{} {
 	return map[string]interface{}{
-		"S":    func(n string) { e.log.Add("S", n, 0) },
-		"E":    func(n string) { e.log.Add("E", n, 0) },
-		"F":    func(n string) { e.log.Add("F", n, 0); panic("injected failure in " + n) },
-		"gate": func(n string) { e.gates.Enter(n) },
+		"S":     func(n string) { e.log.Add("S", n, 0) },
+		"E":     func(n string) { e.log.Add("E", n, 0) },
+		"F":     func(n string) { e.log.Add("F", n, 0); panic("injected failure in " + n) },
+		"gate":  func(n string) { e.gates.Enter(n) },
 		"STALE": func(n string) { e.log.Add("STALE", n, 0) },
 		"FX":    func(n string) { e.log.Add("F", n, 0) },
 		"O":     &FObj{V: 1, In: &FObj{V: 2}},
@@ -324,6 +355,10 @@ func genRules(t *rapid.T, minN, maxN int, failP, tagP, retP int) []models.Rule {
 			name = fmt.Sprintf("%d", 100+i)
 		}
 		r := models.Rule{Name: name, Sal: genSal(t, fmt.Sprintf("sal%d", i))}
+		if pct(t, fmt.Sprintf("nosal%d", i), 10) {
+			r.NoSal, r.Sal = true, 0
+		}
+		r.NoDesc = pct(t, fmt.Sprintf("nodesc%d", i), 10)
 		r.Fails = pct(t, fmt.Sprintf("fail%d", i), failP)
 		if r.Fails && pct(t, fmt.Sprintf("failkind%d", i), 40) {
 			r.FailKind = uni(t, fmt.Sprintf("fk%d", i), 1, len(failStmts)-1)
@@ -500,6 +535,12 @@ func checkSched(x *Ctx, c *SchedCase) (*models.Input, bool) {
 		if r.Fails && r.FailKind > 0 {
 			x.Class("failing-statement:" + strings.SplitN(failStmts[r.FailKind%len(failStmts)], "\n", 2)[0])
 		}
+		if r.NoSal {
+			x.Class("rule-without-salience-clause")
+		}
+		if r.NoDesc {
+			x.Class("rule-without-description")
+		}
 		if r.TagCond != "" {
 			switch {
 			case strings.HasPrefix(r.TagCond, "="):
@@ -522,6 +563,16 @@ func checkSched(x *Ctx, c *SchedCase) (*models.Input, bool) {
 	q := time.Duration(c.QuiesMs) * time.Millisecond
 	if q <= 0 {
 		q = time.Millisecond
+	}
+	if c.Prior != nil {
+		x.Class("engine-used-before-by:" + c.Prior.Method)
+		if pres := runWithSchedule(x, tg, *c.Prior, nil, q); pres.Panic != "" {
+			x.Violation("prior-call-panic", "the earlier call %s panicked: %s", *c.Prior, truncate(pres.Panic, 300))
+			return nil, false
+		}
+		env.log.Reset()
+		env.tag.StopTag = false
+		env.gates.Reopen()
 	}
 	res := runWithSchedule(x, tg, c.Call, c.Gates, q)
 	in := &models.Input{Rules: c.Rules, Call: c.Call, EM: c.EM, Trace: env.log.Snapshot(), Err: res.Err != nil, Panic: res.Panic, Result: res.Map}
